@@ -305,6 +305,13 @@ func Plan(c *BuildCase, format string) (map[string]*ExpNode, error) {
 		switch {
 		case e.Type == "dir":
 			n := &ExpNode{Path: cleanAbs(e.Dst), Kind: "dir", Entry: i, EType: e.Type, Owner: "root", Group: "root", Perm: 0o755}
+			if e.Src != "" {
+				// documented: "a directory in the build environment can optionally be provided in the 'src' field in
+				// order copy mtime and mode from that directory"
+				if sn := p.ti.byRel[path.Clean(e.Src)]; sn != nil && sn.Kind == "dir" {
+					n.Perm = int64(sn.Mode &^ effUmask(p.c) & 0o7777)
+				}
+			}
 			if e.FI != nil {
 				if e.FI.Owner != "" {
 					n.Owner = e.FI.Owner
